@@ -400,6 +400,6 @@ def _phases(run, P):
 
 
 def check(run, P):
-    _check_main(run, P)
+    run.do(_check_main, run, P)
     from . import generic
     generic.lints(run, P, "C16")
